@@ -106,7 +106,7 @@ def cases(draw):
         kk = draw(st.sampled_from([None, None, None, secp.P, secp.N, 2 ** 255 - 19, 3 * 5 * 7 * 11, 1000003, 9, 3, 5, 7, 11, 13, 17, 2 ** 127 - 1, 2 ** 89 - 1, (2 ** 61 - 1) * 3, 1000003 * 5]))
         return (k, n, kk)
     if k == 'addr':
-        return (k, draw(st.binary(min_size=20, max_size=20)))
+        return (k, draw(st.binary(min_size=20, max_size=20)), draw(st.sampled_from([0x00, 0x00, 0x6f, 0x05, 0x05, 0xc4, 0x80, 0x01, 0xff])), draw(st.sampled_from([20, 20, 20, 20, 19, 21, 32, 0])))
     if k == 'pubkeys':
         return (k, draw(st.sampled_from(['combine-pubkeys', 'tweak-pubkey', 'pubkey-to-xpubkey', 'taproot-tweak-pubkey', 'verify-sig', 'verify-sig-compact'])), draw(st.integers(1, secp.N - 1)), draw(st.integers(1, secp.N - 1)), draw(st.integers(0, 3)))
     raise AssertionError(k)
@@ -333,15 +333,30 @@ def check(c, ctx):
         r = tf('jacobi-symbol ' + args)
         expect_eq(c, 'tf jacobi-symbol n=%d k=%s' % (n, kk), out_line(r), str(want))
     elif k == 'addr':
-        _, h = c
-        addr = B58.encode_check(b'\x00' + h)
-        spk = b'\x76\xa9\x14' + h + b'\x88\xac'
+        _, h, ver, plen = (c + (0, 20))[:4] if len(c) < 4 else c
+        payload = (h + bytes(32))[:plen]
+        addr = B58.encode_check(bytes([ver]) + payload)
+        if re.fullmatch(r'[0-9a-fA-F]+', addr) and len(addr) % 2 == 0 or re.fullmatch(r'-?[0-9]+', addr):
+            return
         r = tf('addr-to-scriptpubkey %s' % addr)
-        expect_eq(c, 'tf addr-to-scriptpubkey', out_line(r), spk.hex())
-        r = tf('scriptpubkey-to-addr %s' % hx(spk))
-        expect_eq(c, 'tf scriptpubkey-to-addr', out_line(r), '"%s"' % addr)
-        i = inline('spk_to_addr(addr_to_spk(%s))' % addr)
-        expect_eq(c, 'spk_to_addr(addr_to_spk(a)) = a', bytes.fromhex(i.get('str', '')).decode(), addr)
+        ctx.count('addr:version-%02x:len-%d' % (ver, plen))
+        if plen == 20 and ver in (0x00, 0x6f):
+            spk = b'\x76\xa9\x14' + payload + b'\x88\xac'
+        elif plen == 20 and ver in (0x05, 0xc4):
+            spk = b'\xa9\x14' + payload + b'\x87'          # a pay-to-script-hash address is not a pay-to-pubkey-hash script
+        else:
+            spk = None
+        if spk is None:
+            # neither kind of address (a WIF key, another payload size): no script may come out of it
+            if out_line(r) not in ('', None) and len(out_line(r)) > 2:
+                raise Violation(c, 'addr-to-scriptpubkey turned the base58check string %s (version 0x%02x, %d byte payload) into the script %s' % (addr, ver, plen, out_line(r)), observed=out_line(r), expected='rejected')
+            return
+        expect_eq(c, 'tf addr-to-scriptpubkey (version 0x%02x)' % ver, out_line(r), spk.hex())
+        if ver == 0x00:
+            r = tf('scriptpubkey-to-addr %s' % hx(spk))
+            expect_eq(c, 'tf scriptpubkey-to-addr', out_line(r), '"%s"' % addr)
+            i = inline('spk_to_addr(addr_to_spk(%s))' % addr)
+            expect_eq(c, 'spk_to_addr(addr_to_spk(a)) = a', bytes.fromhex(i.get('str', '')).decode(), addr)
     elif k == 'pubkeys':
         _, fn, d1, d2, variant = c
         cls = 'pubkeys:' + fn
